@@ -13,6 +13,15 @@ non-positive off-diagonal of ``div @ flux``; ``flux`` and ``bound_flux`` equal t
 ``pp.Mpfa`` (``bound_pressure_*`` are deliberately *not* compared between the methods);
 for constant K: exact flux for the basis {1,x,y[,z]} and exact boundary pressure
 reconstruction.
+
+Periodic letters (``set_periodic_map`` on Cartesian / tensor grids): rows of an identified
+face pair touch exactly the two coupled cells and carry one single transmissibility
+(s_l * row_l + s_r * row_r == 0); symmetry, zero flux for constant pressure and MPFA
+agreement as above; linear exactness only for fields that are periodic themselves.
+
+Every evaluation also carries a purity oracle (bitwise digest of grid, tensor and boundary
+condition objects around ``discretize``) and, on every 4th assignment, a reuse oracle (a
+second ``discretize`` on the same data dictionary reproduces the matrices exactly).
 """
 
 from __future__ import annotations
@@ -43,10 +52,12 @@ BOUNDS = {
         "structural: C(2,2), T(2,2) x 9 interior-node offsets, C(3,2) x 3 patterns, affine images, tensor grids "
         "with uneven spacing (2x2, 3x2), 1-d uniform and uneven; K in {I,diag,full,rot,hetdiag,hetfull}; all 2^|dF| "
         "assignments (|dF| <= 10). K-orthogonal: C(2,2), C(3,2), Tensor 2x2, Tensor 3x2, 1-d grids x {I,diag,hetdiag} x "
-        "all assignments."
+        "all assignments. Periodic letters (both parts): Tensor 2x2 /per-x, /per-y, Tensor 3x2 /per-x, /per-xy, C(3,3) /per-y, "
+        "Tensor 2x2 /per-y scaled 1e-3. Scale axis: C(2,2)~ *1e-3, T(2,2) *1e3, Tensor 2x2 *1e-3, C(3,2) *1e3 (structural), "
+        "Tensor 2x2 *1e-3, C(2,2) *1e3 (K-orthogonal). Purity digest on every evaluation, reuse on every 4th assignment."
     ),
     "thorough": (
-        "quick + C(3,3) (all 4096), 3-d: Tet(1,1,1) (all 4096, 2 node patterns), Tet(2,1,1), C(2,2,2) under "
+        "quick + 3-d tensor grid periodic in z / in x and y + C(3,3) (all 4096), 3-d: Tet(1,1,1) (all 4096, 2 node patterns), Tet(2,1,1), C(2,2,2) under "
         "{id,shear,rotscale}, 3-d tensor grid with uneven spacing: side-wise U single U pair flips; K-orthogonal 3-d: "
         "C(2,2,2), Tensor 2x2x2 x {I,diag,hetdiag}."
     ),
@@ -64,22 +75,13 @@ T222 = {"kind": "Tensor", "coords": [[0, 1, 3], [0, 2, 3], [0, 0.5, 2]]}
 L1U = {"kind": "C", "n": [3]}
 L1N = {"kind": "Tensor", "coords": [[0, 1, 3, 3.5]]}
 
-NB = {"C2,2": 8, "T2,2": 8, "C3,2": 10, "C3,3": 12, "Tet1,1,1": 12, "Tet2,1,1": 20, "C2,2,2": 24, "C3": 2,
-      "Tensor3,3": 8, "Tensor4,3": 10, "Tensor3,3,3": 24, "Tensor4": 2}
-
-
-def _gkey(spec):
-    if spec["kind"] == "Tensor":
-        return "Tensor" + ",".join(str(len(c)) for c in spec["coords"])
-    return spec["kind"] + ",".join(str(v) for v in spec["n"])
-
 
 def _dim(spec):
     return len(spec["coords"]) if spec["kind"] == "Tensor" else len(spec["n"])
 
 
 def _emit(out, spec, K, part, aset, per_case):
-    nb = NB[_gkey(spec)]
+    nb = G.num_boundary_faces(spec)
     dim = _dim(spec)
     size = (1 << nb) if aset == "all" else (1 << (2 * dim)) + 2 * nb + nb * (nb - 1)
     nch = max(1, (size + per_case - 1) // per_case)
@@ -108,7 +110,27 @@ def cases(tier):
     for spec in (c22(), c32(), T22, T32, L1U, L1N):
         for K in KS_ORTH:
             _emit(out, spec, K, "K", "all", 128)
+    # periodic letters (uneven spacing: the two coupled cells have different half-transmissibilities)
+    per = [dict(T22, periodic=[0]), dict(T22, periodic=[1]), dict(T32, periodic=[0]), dict(T32, periodic=[0, 1]),
+           {"kind": "C", "n": [3, 3], "periodic": [1]}, dict(T22, periodic=[1], scale=1e-3)]
+    for spec in per:
+        for K in KS_ALL:
+            _emit(out, spec, K, "S", "all", 1024)
+        for K in KS_ORTH:
+            _emit(out, spec, K, "K", "all", 128)
+    # scale axis
+    for spec in (c22(pert=[[4, [1, -1]]], scale=1e-3), t22(scale=1e3), dict(T22, scale=1e-3), c32(scale=1e3)):
+        for K in KS_ALL:
+            _emit(out, spec, K, "S", "all", 1024)
+    for spec in (dict(T22, scale=1e-3), c22(scale=1e3)):
+        for K in KS_ORTH:
+            _emit(out, spec, K, "K", "all", 128)
     if tier == "thorough":
+        for spec in (dict(T222, periodic=[2]), dict(T222, periodic=[0, 1])):
+            for K in KS_ALL:
+                _emit(out, spec, K, "S", "flip2", 1024)
+            for K in KS_ORTH:
+                _emit(out, spec, K, "K", "flip2", 64)
         c33 = {"kind": "C", "n": [3, 3]}
         t111 = lambda **kw: dict({"kind": "Tet", "n": [1, 1, 1]}, **kw)  # noqa: E731
         for K in KS_ALL:
@@ -164,10 +186,29 @@ def _structural(g, info, md, is_dir, scale_t, scale_flux):
     cf = g.cell_faces.toarray()
     bset = np.zeros(nf, dtype=bool)
     bset[info["bfaces"]] = True
+    pm = info.get("periodic_pairs")
+    if pm is not None:
+        for l, r in pm.T:  # noqa: E741
+            cl, cr = int(np.nonzero(cf[l])[0][0]), int(np.nonzero(cf[r])[0][0])
+            for f, own, oth in ((l, cl, cr), (r, cr, cl)):
+                extra = np.setdiff1d(np.nonzero(Fd[f])[0], [cl, cr])
+                if extra.size:
+                    return "periodic face row touches a cell other than the two coupled cells", {"face": int(f), "cells": extra.tolist()}
+                if Fd[f, own] == 0 or (cl != cr and Fd[f, own] != -Fd[f, oth]):
+                    return "periodic face flux is not of the form t (p_own - p_other)", {
+                        "face": int(f), "cells": [own, oth], "values": [float(Fd[f, own]), float(Fd[f, oth])]}
+            dl = cf[l, cl] * Fd[l] + cf[r, cr] * Fd[r]
+            if np.any(np.abs(dl) > 1e-14 * scale_t):
+                return "flux over an identified periodic face pair is not single-valued (two transmissibilities)", {
+                    "faces": [int(l), int(r)], "cells": [cl, cr], "row_left": Fd[l], "row_right": Fd[r]}
+        bset[pm.ravel()] = True  # handled above
     for f in range(nf):
         nbr = np.nonzero(cf[f])[0]
         row = Fd[f]
-        others = np.setdiff1d(np.nonzero(row)[0], nbr)
+        allowed = nbr
+        if pm is not None and f in pm:
+            continue
+        others = np.setdiff1d(np.nonzero(row)[0], allowed)
         if others.size:
             return "flux row touches a cell that is not a neighbour of the face", {"face": f, "cells": others.tolist()}
         if not bset[f]:
@@ -209,7 +250,13 @@ def _korth(g, info, md, perm, Kc, bc, is_dir, tol_f, tol_p):
                 "row_face": int(i), "col": int(j), "tpfa": float(md[key].toarray()[i, j]), "mpfa": float(mm[key].toarray()[i, j]), "tol": tol_f}
     if Kc is not None:
         bf = info["bfaces"]
+        per_axes = set()
+        if info.get("periodic_pairs") is not None:
+            for l, r in info["periodic_pairs"].T:  # noqa: E741
+                per_axes.add(int(np.argmax(np.abs(g.face_centers[:, r] - g.face_centers[:, l]))))
         for name, p0, grad in G.basis_fields(g.dim):
+            if any(grad[a] != 0 for a in per_axes):
+                continue  # not a periodic field
             pc, pf, bcv, q = F.linear_data(g, info, Kc, is_dir, p0, grad)
             fl = flux @ pc + bflux @ bcv
             err = np.abs(fl - q)
@@ -233,7 +280,7 @@ def run_case(case) -> Outcome:
     g, info = G.build_grid(spec)
     dim = g.dim
     nb = len(info["bfaces"])
-    assert nb == NB[_gkey(spec)], (nb, spec)
+    assert nb == G.num_boundary_faces(spec), (nb, spec)
     assert g.num_cells >= 2
     perm, Kc, kmax = _perm(kl, g)
     if case["aset"] == "all":
@@ -247,22 +294,42 @@ def run_case(case) -> Outcome:
     tol_f = TOL * kmax * nmax * (1.0 + xmax / hmin)
     tol_p = 1e-10 * (1.0 + xmax)
     gname = G.grid_name(spec)
-    plain = spec["kind"] == "C" and not spec.get("pert") and spec.get("affine", "id") == "id"
+    plain = spec["kind"] == "C" and not spec.get("pert") and spec.get("affine", "id") == "id" and not spec.get("periodic")
     gcls = f"{dim}d-{spec['kind']}" + ("~" if spec.get("pert") else "") + ("@" if spec.get("affine", "id") != "id" else "")
+    gcls += ("/per" if spec.get("periodic") else "") + ("*" if spec.get("scale", 1.0) != 1.0 else "")
     bf = info["bfaces"]
     for m in masks:
         is_dir = G.mask_to_dir(m, nb)
         nd = int(is_dir.sum())
-        bccls = "allDir" if nd == nb else ("allNeu" if nd == 0 else "mixed")
-        key = (gname, kl, part, m) if (0 < nd < nb and not (plain and kl == "I")) else None
+        bccls = "noBnd" if nb == 0 else ("allDir" if nd == nb else ("allNeu" if nd == 0 else "mixed"))
+        key = (gname, kl, part, m) if ((0 < nd < nb or spec.get("periodic")) and not (plain and kl == "I")) else None
         try:
             bc = G.make_bc(g, bf, is_dir)
-            md, _ = F.discretize_flow("tpfa", g, perm, bc)
+            dg0 = G.digest(g, perm, bc)
+            md, data = F.discretize_flow("tpfa", g, perm, bc)
+            dg1 = G.digest(g, perm, bc)
         except Exception as e:
             out.violate("Tpfa.discretize raised on a valid input", error=repr(e), grid=gname, K=kl, dirichlet_mask=m)
             out.ev("exception")
             continue
-        if part == "S":
+        bad = None
+        if dg0 != dg1:
+            bad = ("Tpfa.discretize modified its arguments (grid / tensor / boundary condition)", {})
+        elif m % 4 == 0:
+            first = G.dense_copy(md)
+            try:
+                second = G.dense_copy(F.rediscretize("tpfa", g, data))
+                for k in first:
+                    if k not in second or not np.array_equal(first[k], second[k]):
+                        bad = ("second Tpfa.discretize on the same data dictionary gives different matrices", {"matrix": k})
+                        break
+                if bad is None and G.digest(g, perm, bc) != dg0:
+                    bad = ("second Tpfa.discretize modified its arguments", {})
+            except Exception as e:
+                bad = ("second Tpfa.discretize on the same data dictionary raised", {"error": repr(e)})
+        if bad is not None:
+            pass
+        elif part == "S":
             bad = _structural(g, info, md, is_dir, scale_t, tol_f)
         else:
             bad = _korth(g, info, md, perm, Kc, bc, is_dir, tol_f, tol_p)
